@@ -569,8 +569,8 @@ def _compare(E, ctx, I, m, conc, out, kind, value, tr_old, con):
                 return "exception class: symbolic %s, CPython %s" % (nm, type(out["exception"]).__name__)
     for oid, o in conc.objs.items():
         ty = conc.types[oid]
-        if not isinstance(ty, (TObj, TAbs)):
-            continue
+        if not isinstance(ty, (TObj, TAbs)) or getattr(ty, "observe", None) is not None:
+            continue  # ghost fields of real library objects are only meaningful where the library defines them
         for f, fty in ty.fields.items():
             if f not in ctx.heap:
                 continue
